@@ -6,5 +6,7 @@ for id in $(python3 -c "import json;print(' '.join(c['property_id'] for c in jso
   out=$(bin/check $id $TIER 2>&1); rc=$?
   echo "rc=$rc $(echo "$out" | tail -1)"
   [ $rc -ne 0 ] && echo "$out" | grep -E "^VIOLATION|HARNESS" | head -5
+  # a quick run that hit its time budget ends with exit 0 and exhaustive=false: not an alarm, but it must not go unnoticed
+  [ "$TIER" = quick ] && echo "$out" | tail -1 | grep -q "exhaustive=false" && echo "  NOTE: $id quick was not exhaustive (time budget reached - machine loaded, or a plan grew)"
 done
 true
